@@ -31,6 +31,12 @@ SPREAD = [x + y + _AL38[(7 * i + 3 * j) % 38] for i, x in enumerate(_AL38) for j
 SPREAD += [x + y + _AL38[(5 * i + j + 1) % 38] + ('a' if (i + j) % 9 == 0 else '') for i, x in enumerate(_AL38[:15]) for j, y in enumerate(_AL38)][:556]
 
 
+# 729 equally common beginnings (no initial n-gram on level 0) AND a context seen 45 198 times with one rare successor (a level-10 transition) in a
+# password whose length is the n-gram size: the remaining level of that one-transition structure is negative at the low levels
+_B9 = 'xyzuvwrst'
+SPREAD10 = [a + b + c + 'aaab' for a in _B9 for b in _B9 for c in _B9 for _ in range(62)] + [a + b + c + 'c' for a in _B9 for b in _B9 for c in _B9 for _ in range(8)] + ['aaabxyz'] * 69 + ['aaaq']      # 'aaa' begins 70 passwords, like every other beginning
+
+
 def rle(lines):
     out = []
     for l in lines:
@@ -64,6 +70,7 @@ def trainings(tier):
         for ng in (2, 3, 4):
             yield l, dict(ngram=ng, alphabet_size=10, coverage=0.5)
     yield SPREAD, dict(ngram=3, alphabet_size=100, coverage=0.5)
+    yield SPREAD10, dict(ngram=4, alphabet_size=100, coverage=0.5)
     # the same lists written as `sort | uniq -c` prints them and trained with --prefixcount: all three passes see the same passwords
     for l in (['ab1'] * 3 + ['abab'] * 2 + ['bbbb'], ['aab'] * 5 + ['ab1ab1', 'a' * 21, 'ab'], ['love'] * 12 + ['dove'] * 3 + ['lovely', 'glove', 'lo']):
         for ng in (2, 3):
